@@ -69,21 +69,30 @@ theorem C13_count (d : AV.DFA σ α) (hd : d.IsDict) (key : α → Int) (k : Nat
     d.countWordsOfLength k = (d.wordsOfLength key k).length :=
   cget_countLevel_eq_length hd key k d.init
 
-/-- … hence the number of accepted words of length `k` (cardinality of the set). -/
-theorem C13_count_card (d : AV.DFA σ α) (hv : d.validate = .ok ()) (hd : d.IsDict) (key : α → Int)
-    (hk : d.KeyInj key) (k : Nat) :
+/-- An ordering key that is injective on the alphabet always exists: the position in the list. -/
+def idxKey (d : AV.DFA σ α) : α → Int := fun a => (d.syms.idxOf a : Int)
+
+omit [DecidableEq σ] in
+theorem idxKey_inj (d : AV.DFA σ α) : d.KeyInj (idxKey d) := by
+  intro a ha b _ h
+  have : d.syms.idxOf a = d.syms.idxOf b := by simpa [idxKey] using h
+  exact (List.idxOf_inj ha).mp this
+
+/-- … hence the number of accepted words of length `k` (cardinality of the set).  The count is
+computed without sorting, so no key appears in the statement (the proof uses the position in the
+alphabet list as an injective key). -/
+theorem C13_count_card (d : AV.DFA σ α) (hv : d.validate = .ok ()) (hd : d.IsDict) (k : Nat) :
     Set.ncard {w | w.length = k ∧ w ∈ Lang d} = d.countWordsOfLength k := by
   classical
-  have hset : {w | w.length = k ∧ w ∈ Lang d} = ↑(d.wordsOfLength key k).toFinset := by
+  have hset : {w | w.length = k ∧ w ∈ Lang d} = ↑(d.wordsOfLength (idxKey d) k).toFinset := by
     ext w
     simp only [Set.mem_ofPred_eq, List.coe_toFinset]
-    exact (C13_words_mem d hv key k w).symm
-  rw [hset, Set.ncard_coe_finset, List.toFinset_card_of_nodup (C13_words_nodup d hv hd key hk k),
-    C13_count d hd key k]
+    exact (C13_words_mem d hv (idxKey d) k w).symm
+  rw [hset, Set.ncard_coe_finset,
+    List.toFinset_card_of_nodup (C13_words_nodup d hv hd (idxKey d) (idxKey_inj d) k),
+    C13_count d hd (idxKey d) k]
 
-/-- The count does not depend on the key at all (it is computed without sorting); an injective
-key exists for every alphabet that can be listed, so the count is the cardinality whenever
-some ordering of the symbols exists. -/
+/-- In particular the count is 0 exactly when no accepted word has length `k`. -/
 theorem C13_count_zero_iff (d : AV.DFA σ α) (hv : d.validate = .ok ()) (hd : d.IsDict) (k : Nat) :
     d.countWordsOfLength k = 0 ↔ ∀ w, w.length = k → w ∉ Lang d := by
   rw [C13_count d hd (fun _ => 0) k]
@@ -400,15 +409,6 @@ theorem C13_isfinite (d : AV.DFA σ α) (hv : d.validate = .ok ()) (hd : d.IsDic
     exact (lang_finite_iff_bounded d hv).mpr ⟨m0, fun w hw => hgr.2 ⟨w, hw, rfl⟩⟩
 
 /-! ## cardinality, len -/
-
-/-- An ordering key that is injective on the alphabet always exists: the position in the list. -/
-def idxKey (d : AV.DFA σ α) : α → Int := fun a => (d.syms.idxOf a : Int)
-
-omit [DecidableEq σ] in
-theorem idxKey_inj (d : AV.DFA σ α) : d.KeyInj (idxKey d) := by
-  intro a ha b _ h
-  have : d.syms.idxOf a = d.syms.idxOf b := by simpa [idxKey] using h
-  exact (List.idxOf_inj ha).mp this
 
 /-- The words of the lengths `i, …, i+k-1`, level after level: duplicate free. -/
 theorem levels_nodup (d : AV.DFA σ α) (hv : d.validate = .ok ()) (hd : d.IsDict) (key : α → Int)
